@@ -40,7 +40,9 @@ def main():
         try:
             demo_note = ""
             if demo:
-                dfile = os.path.join(d, meta["demo"])
+                os.makedirs(os.path.join(wt, "SEEDED_DEMO"))
+                dfile = os.path.join(wt, "SEEDED_DEMO", "demo.py")
+                shutil.copy(os.path.join(d, meta["demo"]), dfile)
                 clean = sh(["/venv/bin/python", dfile], cwd=wt, timeout=900)
             p = sh(["git", "-C", wt, "apply", os.path.join(d, "patch.diff")])
             if p.returncode != 0:
